@@ -511,6 +511,37 @@ def call(f):
 # (`normalise_bytes` = memoryview(obj).cast("B")).  A container with multi-byte items has len(obj) != number of bytes, so an entry
 # point that forgets the normalisation crops / measures the digest in items.  The oracle and the model always see the bytes.
 
+# documented DEFAULTS of the public entry points (pinned version; hard-coded here so that a changed default is an observable
+# difference): allow_truncate of sign / verify / sign_deterministic / from_public_key_recovery is True, of sign_digest /
+# sign_digest_deterministic / verify_digest / from_public_key_recovery_with_digest is False; sigencode / sigdecode default to
+# the raw string codec; hashfunc defaults to the key's default_hashfunc (sha1 for the recovery class methods)
+DEFAULT_ALLOW = {"sign": True, "sign_digest": False, "sign_deterministic": True, "sign_digest_deterministic": False,
+                 "verify": True, "verify_digest": False, "recover_data": True, "recover_digest": False}
+
+
+def outcome_str(res):
+    """comparable rendering of an E.call result"""
+    if res[0] == "ok":
+        v = res[1]
+        if isinstance(v, (bytes, bytearray, memoryview)):
+            return "ok " + bytes(v).hex()
+        if isinstance(v, (tuple, list)):
+            return "ok " + repr([bytes(x).hex() if isinstance(x, (bytes, bytearray, memoryview)) else x for x in v])
+        return "ok " + repr(v)
+    return "err " + res[2]
+
+
+def run_sequence(shared_obj, fresh_obj, calls):
+    """the general rule for stateful objects: a short call sequence on ONE object, compared call by call with the same call on a
+    FRESH object.  `calls`: list of functions obj -> value.  Returns None or {"observed", "expected", "at"}"""
+    for idx, f in enumerate(calls):
+        a = outcome_str(call(lambda: f(shared_obj)))
+        b = outcome_str(call(lambda: f(fresh_obj())))
+        if a != b:
+            return {"observed": a[:400], "expected": "as on a fresh object: " + b[:400], "at_call": idx}
+    return None
+
+
 # truthy / falsy NON-bool values for `allow_truncate` (the code uses truthiness: `if not allow_truncate`, `if allow_truncate`);
 # JSON-able names -> objects.  The oracle and the model use bool(flag).
 FLAG_OBJECTS = {"1": 1, "0": 0, "yes": "yes", "empty-str": "", "None": None, "empty-list": [], "2.5": 2.5}
@@ -543,6 +574,15 @@ COUNT_RULE = ("  COUNTING: `evaluations` = comparisons made in the correspondenc
               "are in coverage.corr_streams.  The search stage is counted separately (coverage.search_evaluations).  EXPLORATION is a "
               "function of the tier and VERIF_SEED only: all budgets are counts, there is no wall-clock cut (stage times are recorded, "
               "never consulted).")
+
+
+CALL_RULE = ("  CALLING CONVENTIONS AND STATE (search stage): every public entry point is called by keyword, POSITIONALLY in the "
+             "documented parameter order, and with every optional argument OMITTED (documented defaults hard-coded in E.DEFAULT_ALLOW); "
+             "digests and signatures are also handed over in non-bytes containers (bytearray, memoryview, signed / multi-byte item "
+             "arrays and views) and the truncation flag as truthy / falsy non-bool values; every stateful object (SigningKey with its "
+             "Private_key, VerifyingKey with its Public_key, ecdsa.Signature) is also driven by short call SEQUENCES on one object - "
+             "same digest with the flags in both orders, digests interleaved, mixed entry points, one Signature object across "
+             "generators of different same-size curves - each call compared with the same call on a fresh object.")
 
 
 def note_budget(ctx):
